@@ -26,7 +26,8 @@ _IMPL_EXC = (Exception, SystemExit, GeneratorExit) + tuple(
 HEADER = "From Coq Require Import ZArith List.\nImport ListNotations.\nFrom IBL.C10 Require Import Run."
 ONE = 2 ** 40          # analog values are exchanged with the model in units of 2^-40 V
 TRUSTED = [
-    "Coq 8.16.1 kernel + vm_compute (no native_compute); all C10 theorems: Closed under the global context",
+    "Coq 8.16.1 kernel + vm_compute (no native_compute); the 28 theorems of Props.v: Closed under the global context; "
+    "Joint.v (C10 x C11, Reader.open through Flocq) inherits the four standard-library axioms of classical reals",
     "hand-written model coq/C10/Model.v of spikeglx.split_sync, Reader.read_sync(_digital/_analog) and "
     "ibldsp.utils.fronts/rises/falls, tied to the source by this run's correspondence",
     "little-endian host (split_sync's view(np.uint8)); np.int16(array) keeps the low 16 bits",
@@ -774,7 +775,107 @@ def exec_nometa(case):
         shutil.rmtree(tmp, ignore_errors=True)
 
 
-EXEC = {"split": exec_split, "fronts1": exec_fronts1, "fronts2": exec_fronts2,
+def exec_long_read(case):
+    """One long nidq read (> DEFAULT_BATCH_SIZE = 1e6 samples) whose beginning is not representative: the
+    analog line idles high, then pulses.  The data are generated from the case's parameters (not stored).
+    NumPy / exact-rational oracle only: the Coq model's insertion sort is quadratic and is not run on
+    a million samples (the model's percentile runs on the whole column by definition, theorem
+    C10_analog_line_alone)."""
+    import spikeglx
+    from ibldsp import utils
+    r = Result()
+    ns, seed = case["ns"], case["seed"]
+    hi_until, period, width = case["high_until"], case["period"], case["width"]
+    base, amp, range_max = case["base"], case["amp"], 4
+    tags = {"kind": "long_read", "typ": "nidq"}
+    rs = np.random.RandomState(seed)
+    ana = np.full(ns, base, dtype=np.int64)
+    ana[:hi_until] = base + amp                              # idle high
+    starts = np.arange(hi_until + period, ns - width - 1, period)
+    for st in starts:
+        ana[st:st + width] = base + amp                      # then pulses
+    ana += rs.randint(-3, 4, size=ns)                        # a little noise: the floor is interpolated
+    words = rs.randint(-32768, 32768, size=ns).astype(np.int64)
+    words[-3:] = [0, -1, 0x1234]                             # events on the very last samples
+    D = np.stack([ana, words], axis=1)
+    gain_f = Fraction(range_max) / 32768
+    thr32 = Fraction(THR_DEFAULT)
+    srt = np.sort(ana)
+    lo, g = divmod(ns - 1, 10)
+    hi = min(lo + 1, ns - 1)
+    pfl = Fraction(int(srt[lo])) + Fraction(int(srt[hi] - srt[lo])) * g / 10          # exact floor, in counts
+    cut = pfl + thr32 / gain_f                               # analog bit = 1 iff count >= cut
+    if np.min(np.abs(ana.astype(np.float64) - float(cut))) < 50:
+        r.info["unsafe"] = True                              # generator guarantee: pulses are far from the cut
+        return r
+    exp_an = (ana >= int(np.ceil(float(cut)))).astype(np.int8)
+    if int(np.sum(np.diff(exp_an) == 1)) != len(starts) or not exp_an[0]:
+        r.info["unsafe"] = True      # the scenario must keep the line high < 90 % of the whole read
+        return r
+    exp_dig = ((words[:, None] >> np.arange(16)[None, :]) & 1).astype(np.int8)
+    tmp = common.tmpdir("C10_")
+    sr = None
+    try:
+        p = write_recording(tmp, "nidq", [0, 0, 1, 1], ns, D, range_max, case.get("meta_dur"))
+        try:
+            sr = spikeglx.Reader(p)
+        except _IMPL_EXC as e:
+            r.bad.append(("spikeglx.Reader could not open a valid recording: %r" % (e,), dict(tags, defect="open")))
+            return r
+        for name, call in (("read_sync(slice(0, ns))", lambda: sr.read_sync(slice(0, ns))),
+                           ("read_sync(slice(None))", lambda: sr.read_sync(slice(None))),
+                           ("read(slice(0, ns))[1]", lambda: sr.read(slice(0, ns), slice(0, 1))[1])):
+            s, exc = _try(call)
+            if exc is not None:
+                r.bad.append(("%s raised %r on a %d-sample recording" % (name, exc, ns), dict(tags, defect="exception")))
+                continue
+            if not isinstance(s, np.ndarray) or s.shape != (ns, 17) or s.dtype != np.int8:
+                r.bad.append(("%s returned %s shape %s dtype %s for %d samples with 16 digital + 1 analog lines" % (
+                    name, type(s).__name__, getattr(s, "shape", None), getattr(s, "dtype", None), ns),
+                    dict(tags, defect="shape")))
+                continue
+            if not np.array_equal(s[:, :16], exp_dig):
+                t = int(np.argmax(np.any(s[:, :16] != exp_dig, axis=1)))
+                r.bad.append(("%s: digital lines of sample %d are %s, the word is %d" % (
+                    name, t, s[t, :16].tolist(), int(words[t])), dict(tags, defect="digital")))
+            if not np.array_equal(s[:, 16], exp_an):
+                t = int(np.argmax(s[:, 16] != exp_an))
+                r.bad.append(("%s: analog line differs from (volts - 10th percentile of the whole read >= 1.2 V) on %d "
+                              "samples, first at sample %d (got %d, expected %d; floor %.1f counts)" % (
+                                  name, int(np.sum(s[:, 16] != exp_an)), t, s[t, 16], exp_an[t], float(pfl)),
+                              dict(tags, defect="analog")))
+            else:
+                ri, fa = _try(lambda: (utils.rises(s[:, 16]).tolist(), utils.falls(s[:, 16]).tolist()))[0] or (None, None)
+                e_ri = (np.flatnonzero(np.diff(exp_an) == 1) + 1).tolist()
+                e_fa = (np.flatnonzero(np.diff(exp_an) == -1) + 1).tolist()
+                if ri != e_ri or fa != e_fa:
+                    r.bad.append(("%s: analog pulses recovered at %s.. / %s.., written at %s.. / %s.." % (
+                        name, ri and ri[:4], fa and fa[:4], e_ri[:4], e_fa[:4]), dict(tags, defect="events")))
+        r.nontrivial = True
+        r.info["long_read_samples"] = ns
+        return r
+    finally:
+        if sr is not None:
+            try:
+                sr.close()
+            except Exception:
+                pass
+        shutil.rmtree(tmp, ignore_errors=True)
+
+
+def gen_long_read(ctx):
+    rng = ctx.rng
+    out = [{"kind": "long_read", "ns": 1300000, "seed": rng.randrange(10 ** 6), "high_until": 1080000,
+            "period": 20000, "width": 3000, "base": 300, "amp": 20000}]
+    if ctx.thorough():
+        out += [{"kind": "long_read", "ns": 1100000, "seed": rng.randrange(10 ** 6), "high_until": 920000,
+                 "period": 5000, "width": 700, "base": -150, "amp": 15000, "meta_dur": ["decimals", 4]},
+                {"kind": "long_read", "ns": 2500000, "seed": rng.randrange(10 ** 6), "high_until": 1200000,
+                 "period": 100000, "width": 40000, "base": 0, "amp": 27000}]
+    return out
+
+
+EXEC = {"long_read": exec_long_read, "split": exec_split, "fronts1": exec_fronts1, "fronts2": exec_fronts2,
         "sync_read": exec_sync_read, "ttl": exec_ttl, "nometa": exec_nometa}
 
 
@@ -1141,13 +1242,33 @@ def gen_sync_read(ctx):
         c = {"kind": "sync_read", "typ": typ, "counts": counts, "ns": ns, "nc": nc, "range_max": range_max,
              "data": [v for row in D for v in row], "slice": sl, "threshold": thr, "floor": fl,
              "path_as_str": rng.random() < 0.3, "call_order": rng.randrange(3), "np_slice": rng.random() < 0.25}
+        if rng.random() < 0.3:       # the meta duration disagrees with the file / an incomplete frame trails
+            c["meta_dur"] = rng.choice([["decimals", 4], ["samples", max(0, ns - 1)], ["samples", max(0, ns - 5)],
+                                        ["samples", ns + 1], ["samples", ns + 30], None])
+            c["tail_bytes"] = rng.choice([0, 0, 1, 2 * nc - 1, nc])
         cases.append(c)
     return cases
 
 
+def fixed_ttl():
+    """the file holds more (or fewer) frames than the meta duration says; events on the last samples."""
+    out = []
+    for typ, ns, md, tail in [("nidq", 52, ["decimals", 4], 0), ("nidq", 40, ["samples", 39], 0),
+                              ("nidq", 40, ["samples", 33], 1), ("nidq", 40, ["samples", 41], 0),
+                              ("ap", 22, ["samples", 21], 0), ("lf", 9, ["decimals", 4], 0),
+                              ("ap", 12, ["samples", 40], 769), ("nidq", 64, None, 1)]:
+        lines = [[k % 2, sorted({1 + (k % 3), ns - 1 - (k % 2), ns - 1})] for k in range(16)]
+        c = {"kind": "ttl", "typ": typ, "ns": ns, "lines": lines, "fill_seed": 11 * ns, "via_read": True,
+             "meta_dur": md, "tail_bytes": tail}
+        if typ == "nidq":
+            c["counts"] = [0, 0, 1, 1]
+        out.append(c)
+    return out
+
+
 def gen_ttl(ctx):
     rng = ctx.rng
-    cases = []
+    cases = fixed_ttl()
     n = 1200 if ctx.thorough() else 60
     for j in range(n):
         u = rng.random()
@@ -1172,6 +1293,10 @@ def gen_ttl(ctx):
             lines.append([rng.randrange(2), evs])
         c = {"kind": "ttl", "typ": typ, "ns": ns, "lines": lines, "fill_seed": rng.randrange(10 ** 6),
              "via_read": rng.random() < 0.3}
+        if rng.random() < 0.4:
+            c["meta_dur"] = rng.choice([["decimals", 4], ["samples", ns - 1], ["samples", max(1, ns - 7)],
+                                        ["samples", ns + 1], ["samples", ns + 25]])
+            c["tail_bytes"] = rng.choice([0, 0, 1, 3])
         if typ == "nidq":
             c["counts"] = rng.choice([[0, 0, 0, 1], [0, 0, 1, 1], [2, 1, 2, 1]])
         cases.append(c)
@@ -1201,10 +1326,17 @@ def run(ctx):
     logging.disable(logging.CRITICAL)
     # Sweep.v = the exhaustive vm_compute evaluation of all 65536 words: compiled and kernel-checked by coqc,
     # taken as given by coqchk in the thorough tier (re-evaluation without the VM takes too long)
-    common.proof_obligations(ctx, whitelist=[], coqchk_admit=["IBL.C10.Sweep"])
+    # Joint.v composes C11's Reader.open theorem (Flocq) with C10_sync_layout: only that theorem uses the
+    # standard-library axioms below; every theorem of Props.v must stay closed under the global context
+    common.proof_obligations(ctx, whitelist=sorted(common.STDLIB_AXIOMS), modules=("Props", "Joint"),
+                             coqchk_admit=["IBL.C10.Sweep"])
+    for name, ax in ctx.theorems.items():
+        if name != "C10_rows_are_the_complete_frames" and ax != "Closed under the global context":
+            ctx.broken_proofs.append({"theorem": name, "why": "expected to be closed under the global context: %s" % ax})
     cases = load_corpus()
     cases += gen_split(ctx) + gen_fronts(ctx) + gen_sync_read(ctx) + gen_ttl(ctx)
     cases += [{"kind": "nometa", "ns": 12, "fill_seed": ctx.rng.randrange(10 ** 6)}]
+    cases += gen_long_read(ctx)
     inputs, outputs, owners = [], [], []
     dist = {}
     nontrivial = set()
